@@ -16,7 +16,7 @@ RULE = (
     "[plus a small 'cli_wiring' part: generated `taskiq worker` flag sets parsed by the real WorkerArgs.from_cli and turned into a receiver by the real start_listen(); --max-tasks-per-child / --wait-tasks-timeout reach the receiver unchanged] "
     "Hypothesis-generated shutdown scenarios: stop instant anywhere on the 0.05 s grid / around the 0.3 s poll grid "
     "(or no stop when max_tasks_to_execute=N decides), A in 1..3, P in 0..2, N in None|1..4, wait_tasks_timeout in "
-    "None|0.5|2|5, 0-7 ackable messages with durations 0/0.05/0.3/1/4 s or never-ending (longer than the 60 s virtual "
+    "None|0|0.5|2|5, 0-7 ackable messages with durations 0/0.05/0.3/1/4 s or never-ending (longer than the 60 s virtual "
     "horizon); a quarter of the cases with a timeout come from a 'staggered drain' family (1-3 accepted tasks finishing one after the other during the drain, spaced by 0.7*W, plus one running past the timeout, enough free slots). Oracle (s = stop instant or instant of the N-th take, D = instant all accepted messages finished, "
     "R = return of listen(), T0 = max(s, start of last accepted message)): (a) <=1 take after a stop, none after the "
     "N-th; (b) W=None => every accepted message has exit and ack before R; (c) R >= min(D, s+W); "
@@ -41,7 +41,7 @@ def scenario() -> Any:
         if not d.pop("has_stop") and d["N"] is not None:
             d["stop"] = None
         stag = d.pop("staggered")
-        if stag["on"] and d["W"] is not None:
+        if stag["on"] and d["W"]:
             # family: several accepted tasks finish one after the other DURING the drain (spaced by less than W) while a
             # longer one keeps running past the timeout; enough slots so the worker is not saturated
             W = d["W"]
@@ -60,7 +60,7 @@ def scenario() -> Any:
     return st.fixed_dictionaries({
         "A": st.integers(1, 3), "P": st.integers(0, 2),
         "N": st.sampled_from([None, None, 1, 2, 3, 4]),
-        "W": st.sampled_from([None, None, 0.5, 2.0, 5.0]),
+        "W": st.sampled_from([None, None, 0, 0.5, 2.0, 5.0]),
         "msgs": st.lists(msg, min_size=0, max_size=7),
         "stop": cm.times(60), "has_stop": st.booleans(),
         "staggered": st.fixed_dictionaries({"on": st.sampled_from([False, False, False, True]), "k": st.integers(1, 3),
